@@ -547,6 +547,113 @@ func init() {
 				}
 			}
 		}
+		// (1d) histories of one manager: every sequence (depth <= 3) of reloads from a file and from pushed bytes,
+		// accepted and rejected (same length, shorter, longer than the running text). After every step the
+		// manager advertises a hash that a fresh process computes for the content it hands out, and a rejected
+		// reload changes neither
+		{
+			otherCfg := strings.Replace(c16Base, "scrape_configs:", "scrape_configs:\n  - job_name: zz-added\n    static_configs:\n      - targets: [\"q:1\"]", 1)
+			otherHash, err := c16Hash(otherCfg)
+			if err != nil {
+				chk.Fatalf("(1d) second configuration rejected: %v", err)
+			}
+			type rop struct {
+				name, text string
+				file, ok   bool
+			}
+			badSame := strings.Replace(c16Base, "scrape_configs:", "scrape_confgis:", 1)
+			var ropsAll []rop
+			for _, file := range []bool{true, false} {
+				ropsAll = append(ropsAll,
+					rop{"A", c16Base, file, true}, rop{"B", otherCfg, file, true},
+					rop{"rejected-same-length", badSame, file, false}, rop{"rejected-shorter", "scrape_configs: [\n", file, false},
+					rop{"rejected-longer", otherCfg + "\nbogus_top_level_key: 1\n", file, false})
+			}
+			fresh := map[string]string{c16Base: baseHash, otherCfg: otherHash}
+			dirD := filepath.Join(scratch, fmt.Sprintf("c16-hist-%d", c.Part))
+			os.MkdirAll(dirD, 0o755)
+			fileD := filepath.Join(dirD, "prometheus.yml")
+			var seq []rop
+			var walk func()
+			walk = func() {
+				if len(seq) > 0 {
+					idx++
+					if c.Mine(idx) {
+						m := prom.NewConfigManager()
+						prevHash, prevRaw := m.ConfigInfo().ConfigHash, string(m.ConfigInfo().RawContent)
+						var names []string
+						for _, o := range seq {
+							names = append(names, map[bool]string{true: "file:", false: "push:"}[o.file]+o.name)
+							var err error
+							if o.file {
+								os.WriteFile(fileD, []byte(o.text), 0o644)
+								err = m.ReloadFromFile(fileD)
+							} else {
+								err = m.ReloadFromRaw([]byte(o.text))
+							}
+							r.Transitions++
+							ci := m.ConfigInfo()
+							rp := &c16Replay{Property: "C16", Clause: "same-content-same-hash", Edit: strings.Join(names, ", "), HashA: prevHash, HashB: ci.ConfigHash}
+							switch {
+							case (err == nil) != o.ok:
+								chk.Fatalf("(1d) reload %v: accepted=%v, expected %v (%v)", names, err == nil, o.ok, err)
+							case !o.ok && (ci.ConfigHash != prevHash || string(ci.RawContent) != prevRaw):
+								r.Violate("C16:rejected-reload-changes-running-config", "same-content-same-hash", fmt.Sprintf("after %v the rejected reload changed what the manager advertises (hash %s -> %s, content changed: %v)", names, prevHash, ci.ConfigHash, string(ci.RawContent) != prevRaw), idx, rp)
+							case o.ok && (ci.ConfigHash != fresh[o.text] || string(ci.RawContent) != o.text):
+								r.Violate("C16:history-dependent", "same-content-same-hash", fmt.Sprintf("after %v the manager advertises hash %s for content a fresh process hashes to %s (content equals the loaded text: %v)", names, ci.ConfigHash, fresh[o.text], string(ci.RawContent) == o.text), idx, rp)
+							}
+							prevHash, prevRaw = ci.ConfigHash, string(ci.RawContent)
+						}
+						r.States++
+					}
+				}
+				if len(seq) == 3 {
+					return
+				}
+				for _, o := range ropsAll {
+					seq = append(seq, o)
+					walk()
+					seq = seq[:len(seq)-1]
+				}
+			}
+			walk()
+			os.RemoveAll(dirD)
+		}
+		// (1e) supplementary, free-running (not exhaustive): managers of one process reloading at the same time
+		// (the coordinator serves /-/reload and pushes concurrently) share no hashing state
+		if c.Part == 0 {
+			idx++
+			const workersE, roundsE = 4, 12
+			res := make([][]string, workersE)
+			done := make(chan int, workersE)
+			for w := 0; w < workersE; w++ {
+				w := w
+				go func() {
+					for i := 0; i < roundsE; i++ {
+						h, _ := c16Hash(c16Base)
+						res[w] = append(res[w], h)
+					}
+					done <- w
+				}()
+			}
+			for w := 0; w < workersE; w++ {
+				<-done
+			}
+			bad := 0
+			for _, hs := range res {
+				for _, h := range hs {
+					if h != baseHash {
+						bad++
+					}
+				}
+			}
+			r.Counters["free_running_concurrent_reloads"] = workersE * roundsE
+			r.Transitions += workersE * roundsE
+			if bad > 0 {
+				r.Violate("C16:concurrent-reloads-disagree", "same-content-same-hash", fmt.Sprintf("%d of %d reloads of the same content running at the same time in one process produced a hash other than %s", bad, workersE*roundsE, baseHash), idx,
+					&c16Replay{Property: "C16", Clause: "same-content-same-hash", Edit: "4 goroutines x 12 reloads of the base configuration, each on its own manager", A: c16Base, HashA: baseHash})
+			}
+		}
 		// (2) formatting-only and external-label variants of the base and of some edited documents
 		docs := map[string]string{"base": c16Base}
 		for i, e := range edits {
